@@ -700,7 +700,8 @@ def fs_check(ctx, harness, drv):
             ops[l.split()[0]] = ops.get(l.split()[0], 0) + 1
     ctx.cov["op_histogram"] = ops
     ev0 = ctx.cov["evaluations"]
-    diffs = C.differential(ctx, harness, drv, hs, fs_reference, fs_eq, nontrivial=fs_nontrivial)
+    # small chunks: every fs op costs real system calls (≈1 ms on a loaded disk), keep each process far below the time-out
+    diffs = C.differential(ctx, harness, drv, hs, fs_reference, fs_eq, nontrivial=fs_nontrivial, chunk=250, timeout=600)
     ctx.log(f"fs: {len(hs)} histories, {ctx.cov['evaluations'] - ev0} op lines, {len(diffs)} disagreement(s)")
     C.report_diffs(ctx, diffs, harness, drv, fs_reference, fs_eq, "fs-operations")
     # fault counts: re-run the faulted ops' histories once to read the harness' own counters
